@@ -112,13 +112,15 @@ PLANS.update({
     ),
     "C04": P(
         "model_checking",
-        ["verify.lenient.kb", "verify.lenient.args", "verify.accept", "present.ok", "present.kb", "present.kb.none", "scn.expect.reject", "scn.expect.claims", "scn.model.agrees"],
+        ["verify.lenient.kb", "verify.lenient.args", "verify.accept", "present.ok", "present.kb", "present.kb.none", "scn.expect.reject", "scn.expect.claims", "scn.model.agrees"]
+        + ["verify.kb.only." + f for f in ("absent", "sig", "typ", "aud", "nonce", "sdh")],
         [KB_WIDE, KB_DEEP],
         [{"driver": "replay", "scn": "kb_wide", "args": {"n": 600, "matrix": 0}}, {"driver": "attack", "args": {"n": 12, "family": "kb", "stride": 25}},
          {"driver": "rich", "args": {"n": 400, "depth": 3, "arbsel": 0, "kb": 1, "xfmt": 1}}],
         [{"driver": "replay", "scn": "kb_wide", "args": {"n": 100000, "matrix": 0}}, {"driver": "replay", "scn": "kb_deep", "args": {"n": 6000, "matrix": 0}}, {"driver": "attack", "args": {"n": 24, "family": "kb", "stride": 1}},
          {"driver": "rich", "args": {"n": 10000, "depth": 6, "arbsel": 0, "kb": 1, "xfmt": 1}}],
-        required={"verify.lenient.kb": 300, "verify.lenient.args": 50, "verify.accept": 20, "present.kb": 100},
+        required={"verify.lenient.kb": 300, "verify.lenient.args": 50, "verify.accept": 20, "present.kb": 100,
+                  **{"verify.kb.only." + f: 20 for f in ("absent", "sig", "typ", "aud", "nonce", "sdh")}},
         rule="cases = behaviours of MC_kb (move / strip / alter / re-sign / forge the KB-JWT, change the disclosure list afterwards, six (aud, nonce) expectations) replayed "
              "in both serializations + every single-character edit of real KB-JWTs and disclosure lists changed after the KB-JWT was made; distinct = distinct attacked presentations",
         assumptions=_A,
